@@ -22,38 +22,48 @@ def sh(cmd, cwd, timeout=1500):
     r = subprocess.run(cmd, cwd=cwd, shell=True, capture_output=True, text=True, env=env, timeout=timeout)
     return r.returncode, (r.stdout + r.stderr)
 meta = {"property": pid, "change": int(n), "source": "independent sub-agent, given only the property text and a scratch worktree", "ran": []}
-A = copy("with_change")
-rc, o = sh("patch -p1 -d %s < %s" % (A, patch), "/")
-if rc != 0:
-    print("patch failed", o[-500:]); sys.exit(3)
-dl = open(demo).read().split("\n")
-m = re.search(r"(src/[A-Za-z0-9_/]+\.rs|tests/[A-Za-z0-9_/]+\.rs)", dl[0] + " " + (dl[1] if len(dl) > 1 else ""))
-target = m.group(1) if m else None
-meta["demo_appended_to"] = target
-# 1. suite with change
-rc, o = sh("cargo test --offline 2>&1 | grep -E '^test result|^error' ", A)
-suite_ok = "FAILED" not in o and "error" not in o and o.count("test result: ok") >= 2 and "62 passed" in o and "2 passed" in o
-meta["ran"].append({"cmd": "cargo test --offline (with change)", "ok": suite_ok, "out": o[-400:]})
-# extra dev-deps the demo may need (tokio test-util)
-def add_demo(d):
-    with open(os.path.join(d, target), "a") as f:
-        f.write("\n" + open(demo).read())
-    if "start_paused" in open(demo).read() or "tokio::time::pause" in open(demo).read() or "time::advance" in open(demo).read():
-        ct = open(os.path.join(d, "Cargo.toml")).read().replace('features = ["io-std", "io-util"] }', 'features = ["io-std", "io-util", "test-util"] }')
-        open(os.path.join(d, "Cargo.toml"), "w").write(ct)
-demo_names = re.findall(r"fn\s+([a-z0-9_]+)\s*\(\s*\)", open(demo).read())
-modname = re.findall(r"mod\s+([a-z0-9_]+)\s*\{", open(demo).read())
-filt = modname[0] if modname else (demo_names[0] if demo_names else "")
-add_demo(A)
-rc1, o1 = sh("cargo test --offline %s 2>&1 | grep -E 'test result|panicked|FAILED|error\\[' | head -20" % filt, A)
-fails_with = "FAILED" in o1 or "failed" in o1
-meta["ran"].append({"cmd": "cargo test --offline %s (demo, with change)" % filt, "fails": fails_with, "out": o1[-600:]})
-B = copy("without_change")
-add_demo(B)
-rc2, o2 = sh("cargo test --offline %s 2>&1 | grep -E 'test result|panicked|FAILED|error\\[' | head -20" % filt, B)
-passes_without = "FAILED" not in o2 and "test result: ok" in o2 and "error[" not in o2
-meta["ran"].append({"cmd": "cargo test --offline %s (demo, without change)" % filt, "passes": passes_without, "out": o2[-600:]})
-meta["confirmed"] = bool(suite_ok and fails_with and passes_without)
+RECHECK = "--recheck" in sys.argv
+dst0 = "/verif/seeded/%s-%s" % (pid, n)
+if RECHECK and os.path.exists(os.path.join(dst0, "meta.json")):
+    old = json.load(open(os.path.join(dst0, "meta.json")))
+    meta["ran"], meta["confirmed"], meta["demo_appended_to"] = old["ran"], old["confirmed"], old.get("demo_appended_to")
+    patch, demo = os.path.join(dst0, "patch.diff"), os.path.join(dst0, "demo_test.rs")
+else:
+    RECHECK = False
+A = copy("with_change") if not RECHECK else None
+if not RECHECK:
+    rc, o = sh("patch -p1 -d %s < %s" % (A, patch), "/")
+    if rc != 0:
+        print("patch failed", o[-500:]); sys.exit(3)
+    dl = open(demo).read().split("\n")
+    m = re.search(r"(src/[A-Za-z0-9_/]+\.rs|tests/[A-Za-z0-9_/]+\.rs)", dl[0] + " " + (dl[1] if len(dl) > 1 else ""))
+    target = m.group(1) if m else None
+    meta["demo_appended_to"] = target
+    # 1. suite with change
+    rc, o = sh("cargo test --offline 2>&1 | grep -E '^test result|^error' ", A)
+    suite_ok = "FAILED" not in o and "error" not in o and o.count("test result: ok") >= 2 and "62 passed" in o and "2 passed" in o
+    meta["ran"].append({"cmd": "cargo test --offline (with change)", "ok": suite_ok, "out": o[-400:]})
+    # extra dev-deps the demo may need (tokio test-util)
+    def add_demo(d):
+        with open(os.path.join(d, target), "a") as f:
+            f.write("\n" + open(demo).read())
+        if "start_paused" in open(demo).read() or "tokio::time::pause" in open(demo).read() or "time::advance" in open(demo).read():
+            ct = open(os.path.join(d, "Cargo.toml")).read().replace('features = ["io-std", "io-util"] }', 'features = ["io-std", "io-util", "test-util"] }')
+            open(os.path.join(d, "Cargo.toml"), "w").write(ct)
+    demo_names = re.findall(r"fn\s+([a-z0-9_]+)\s*\(\s*\)", open(demo).read())
+    modname = re.findall(r"mod\s+([a-z0-9_]+)\s*\{", open(demo).read())
+    filt = modname[0] if modname else (demo_names[0] if demo_names else "")
+    add_demo(A)
+    rc1, o1 = sh("cargo test --offline %s 2>&1 | grep -E 'test result|panicked|FAILED|error\\[' | head -20" % filt, A)
+    fails_with = "FAILED" in o1 or "failed" in o1
+    meta["ran"].append({"cmd": "cargo test --offline %s (demo, with change)" % filt, "fails": fails_with, "out": o1[-600:]})
+    B = copy("without_change")
+    add_demo(B)
+    rc2, o2 = sh("cargo test --offline %s 2>&1 | grep -E 'test result|panicked|FAILED|error\\[' | head -20" % filt, B)
+    passes_without = "FAILED" not in o2 and "test result: ok" in o2 and "error[" not in o2
+    meta["ran"].append({"cmd": "cargo test --offline %s (demo, without change)" % filt, "passes": passes_without, "out": o2[-600:]})
+    meta["confirmed"] = bool(suite_ok and fails_with and passes_without)
+
 # 2. checks against the change (fresh copy without demo)
 C = copy("for_checks")
 sh("patch -p1 -d %s < %s" % (C, patch), "/")
@@ -80,8 +90,9 @@ meta["detected_by"] = [c for c, v in res.items() if v["rc"] == 1]
 meta["inconclusive"] = [c for c, v in res.items() if v["rc"] == 2]
 dst = "/verif/seeded/%s-%s" % (pid, n)
 os.makedirs(dst, exist_ok=True)
-shutil.copy(patch, dst); shutil.copy(demo, dst)
-if os.path.exists(os.path.join(src, "notes.md")): shutil.copy(os.path.join(src, "notes.md"), dst)
+if not RECHECK:
+    shutil.copy(patch, dst); shutil.copy(demo, dst)
+    if os.path.exists(os.path.join(src, "notes.md")): shutil.copy(os.path.join(src, "notes.md"), dst)
 json.dump(meta, open(os.path.join(dst, "meta.json"), "w"), indent=1)
 shutil.rmtree(work, ignore_errors=True); shutil.rmtree(env["CARGO_TARGET_DIR"], ignore_errors=True)
 print(pid, n, "confirmed" if meta["confirmed"] else "NOT-CONFIRMED", "detected_by", meta["detected_by"], "inconclusive", meta["inconclusive"])
